@@ -159,8 +159,15 @@ class StreamSuite(cc.ChanSuite):
                             i0 = next((i for i in range(len(d) + 1) if pat.fullmatch(d, i)), None)
                             if i0 is not None and got[sid][-len(d):] != d[:i0].decode("utf-8", "replace") and \
                                     not got[sid].endswith(d[:i0].decode("utf-8", "replace")):
-                                fails.append(f"regex prompt: after a read that ended at the prompt the stream holds "
-                                             f"{got[sid]!r}, expected it to end with the output {d[:i0]!r}")
+                                want_txt = d[:i0].decode("utf-8", "replace")
+                                # the recorded finding LOSES the tail of the output (what the stream holds is a proper
+                                # prefix of it); anything else -- e.g. bytes of the prompt forwarded -- is something new
+                                if ascii_only and not want_txt.startswith(got[sid]):
+                                    fails.append(f"regex prompt (not a lost tail): after a read that ended at the prompt the stream holds "
+                                                 f"{got[sid]!r}; the output is {want_txt!r}")
+                                else:
+                                    fails.append(f"regex prompt: after a read that ended at the prompt the stream holds "
+                                                 f"{got[sid]!r}, expected it to end with the output {d[:i0]!r}")
                         held = b""
                     attached.remove(sid)
                     mode_show = f[2]
@@ -210,6 +217,8 @@ class StreamSuite(cc.ChanSuite):
     def finding_key(self, case, obs, failure):
         # known findings are identified by the history that fails (see known_findings.json / DESIGN.md D11):
         kind = case.get("meta", {}).get("kind")
+        if kind == "regex" and "not a lost tail" in failure:
+            return None
         if kind == "regex" and ("regex prompt:" in failure or "survive detaching" in failure):
             # with_stream(show_prompt=False) + REGEX prompt: the last maxwidth bytes are held back and dropped at detach
             return "C08:regex-prompt-holdback-dropped-at-detach"
